@@ -590,6 +590,7 @@ func same(a, b interface{}) bool { return true }
 func unchanged(l ...interface{}) bool { return true }
 func call(f interface{}, args ...interface{}) interface{} { return nil }
 func visited(k interface{}) bool { return true }
+func itercount() int { return 0 }
 type rangeindex = int
 var _ = []interface{}{forall, exists, implies, fresh, cells, mapcells, locs, nothing, dyntype, allocated, tuple, strof, same, unchanged, call, visited}
 `
